@@ -8,7 +8,7 @@
     stored in the values (an invariant of the Drummer DB). *)
 From stdpp Require Import gmap list numbers.
 From Drummer.Model Require Import DB Sched SchedRun.
-From Drummer.Proofs Require Import SchedProofs SchedExamples.
+From Drummer.Proofs Require Import SchedProofs SchedTotal SchedExamples.
 Local Open Scope N_scope.
 
 (** 1. A restore request names a member of the view that is classified failed, is sent to
@@ -33,6 +33,18 @@ Theorem C12_flags : ∀ P C b q,
        zip (q_rids q) (q_addrs q) ≡ₚ (λ kv, (kv.1, r_addr kv.2)) <$> map_to_list (s_reps c).
 Proof. exact sched_restore_flags. Qed.
 Print Assumptions C12_flags.
+
+(** 2'. Every CREATE of a maintenance round is either such a restore request or the join of
+        a member that is waiting to start: a member is never bootstrapped (join = restore =
+        false) or joined when it has data to restart from, and a restore is never flagged join. *)
+Theorem C12_create_kinds : ∀ P C b q,
+  ctx_wf C → allowed P C (OBatch b) = true → q ∈ b → is_create q = true →
+  (q_restore q = true ∧ q_join q = false) ∨
+  (q_restore q = false ∧ q_join q = true ∧
+   ∃ c n, c_view C !! q_shard q = Some c ∧ s_reps c !! q_inst q = Some n ∧
+          replica_waiting P n (c_tick C) = true ∧ q_raft q = r_addr n).
+Proof. exact sched_create_kinds. Qed.
+Print Assumptions C12_create_kinds.
 
 (** 3. A shard that receives a restore request receives, in the same batch, nothing but
        restore requests (and KILLs of stray replicas): no ADD, no DELETE, no join CREATE. *)
@@ -77,6 +89,13 @@ Theorem C12_quorum_partial : ∀ P C b q c,
   (quorum_of (size (s_reps c)) ≤ length (ok_replicas P c (c_tick C)) + restores_for (q_shard q) b)%nat.
 Proof. exact sched_restore_quorum_partial. Qed.
 Print Assumptions C12_quorum_partial.
+
+(** The set of allowed outcomes is never empty: in every well-formed context the canonical
+    outcome [canon] (first candidates in map order, new id for shard s = idf s) is allowed,
+    so "every allowed batch" is not a vacuous quantification in any context. *)
+Theorem C12_allowed_set_nonempty : ∀ P C idf, ctx_wf C → allowed P C (canon P C idf) = true.
+Proof. exact allowed_canon. Qed.
+Print Assumptions C12_allowed_set_nonempty.
 
 (** Non-vacuity: the hypotheses are met by concrete contexts and batches. *)
 Example C12_nonvacuous_restore :
